@@ -24,6 +24,8 @@ type c32Case struct {
 	Runs  [][2]int `json:"runs"`
 	Over  [][2]int `json:"overwrites,omitempty"`
 	Shift uint64   `json:"shift,omitempty"`
+	// Half: two more bytes are stored half the address space (2^63) above the runs
+	Half bool `json:"half,omitempty"`
 }
 
 type bblock struct {
@@ -76,6 +78,11 @@ func c32Build(c c32Case) (memory.Memory, map[uint64]byte) {
 	}
 	for _, r := range c.Over {
 		store(r, 0x90)
+	}
+	if c.Half {
+		a := c.Shift + 1<<63 + 0x25
+		mem.Store(model.Addr(a), ir.ConstU(0x7172, 2), 2)
+		mdl[a], mdl[a+1] = 0x72, 0x71
 	}
 	return mem, mdl
 }
@@ -310,7 +317,7 @@ func wW(w int) expr.Width { return expr.Width(w) }
 func init() {
 	checks["C32"] = eng.Check{
 		Procs:       8,
-		Rule:        "memories (Sparse; Overlay(Bytes, Sparse) with 3 base layouts) storing EVERY union of <=2 runs with endpoints from {0,1,15,16,17,31,32,33,47,48} (thorough: <=3 runs with endpoints from {0,1,2,15,16,17,31,32,33,47,48,63,64}) plus a far run, written with distinct bytes as 1..4-byte stores and then partially overwritten (3 overwrite patterns), also shifted to 0xfff0 and to the top of the address space; the real memory view rendered with 200 granted lines and parsed: one row per aligned 16-byte window touching stored memory in address order, each stored byte's current value, '..' for absent bytes, exactly one ellipsis between non-consecutive rows and none between consecutive ones; the real address command for every stored address +-1 and window edge, issued from EVERY cursor row (data and ellipsis rows): selects the stored address's row, fails (cursor unchanged) outside every row; after a successful address command screens of 5, 8 and 200 lines show exactly one marked row, the one holding the address. Non-trivial = layout with stored bytes.",
+		Rule:        "memories (Sparse; Overlay(Bytes, Sparse) with 3 base layouts) storing EVERY union of <=2 runs with endpoints from {0,1,15,16,17,31,32,33,47,48} (thorough: <=3 runs with endpoints from {0,1,2,15,16,17,31,32,33,47,48,63,64}) plus a far run, written with distinct bytes as 1..4-byte stores and then partially overwritten (3 overwrite patterns), also shifted to 0xfff0, to the top of the address space incl. its last row, and with further bytes 2^63 above the runs (rows in both halves of the address space); the real memory view rendered with 200 granted lines and parsed: one row per aligned 16-byte window touching stored memory in address order, each stored byte's current value, '..' for absent bytes, exactly one ellipsis between non-consecutive rows and none between consecutive ones; the real address command for every stored address +-1 and window edge, issued from EVERY cursor row (data and ellipsis rows): selects the stored address's row, fails (cursor unchanged) outside every row; after a successful address command screens of 5, 8 and 200 lines show exactly one marked row, the one holding the address. Non-trivial = layout with stored bytes.",
 		Assumptions: []string{"leading/trailing ellipsis rows and the outcome for an absent byte inside a shown row are not constrained"},
 		Run: func(r *eng.Run) {
 			ends := []int{0, 1, 15, 16, 17, 31, 32, 33, 47, 48}
@@ -379,6 +386,10 @@ func init() {
 					if li%5 == 0 {
 						do(c32Case{Kind: "sparse", Runs: l, Over: o, Shift: 0xfff0})
 						do(c32Case{Kind: "sparse", Runs: l, Over: o, Shift: 0xffffffffffffff00})
+						// rows in both halves of the address space (2^63 apart), and the last row of the address space
+						do(c32Case{Kind: "sparse", Runs: l, Over: o, Half: true})
+						do(c32Case{Kind: "sparse", Runs: l, Over: o, Shift: 0x7fffffffffffffe0, Half: true})
+						do(c32Case{Kind: "sparse", Runs: l, Over: o, Shift: 0xffffffffffffffcf})
 					}
 					for bi, b := range bases {
 						if r.Quick() && (li+bi)%4 != 0 {
